@@ -1,4 +1,4 @@
 From Coq Require Import ZArith Extraction ExtrOcamlBasic.
 From CyVerif Require Import Lib.CInt Model.M_BufFmt.
 Extraction "../ocaml/gen/m_buffmt.ml" ex_keep check check_fuel render spec_accept layout smatch
-  fmt_toks mkfixes mkleaf mktinfo.
+  fmt_toks mkfixes mkleaf mktinfo parse_number decimal.
